@@ -596,11 +596,15 @@ class Runner:
             for k, v in (s.get("labels") or {}).items():
                 labels[k] = labels.get(k, 0) + v
             hashes.update(s.get("nontrivial_hashes") or [])
-            for x in s.get("samples") or []:
-                if len(samples) < 3:
+            for x in (s.get("samples") or [])[:1]:  # one sample per process first, so that every part of the check is represented
+                if len(samples) < 4:
                     samples.append(x)
             for k, v in (s.get("extra") or {}).items():
                 extra.setdefault(k, []).append(v)
+        for s in stats:
+            for x in (s.get("samples") or [])[1:]:
+                if len(samples) < 4:
+                    samples.append(x)
         cov = {
             "evaluations": cases,
             "distinct_nontrivial": len(hashes),
